@@ -2,7 +2,7 @@
 //! Every case line is `C19 <op> <variant?> …`; the answer is canonical text.
 use arrow_buffer::bit_chunk_iterator::{BitChunks, UnalignedBitChunk};
 use arrow_buffer::bit_iterator::{BitIndexIterator, BitIterator, BitSliceIterator};
-use arrow_buffer::{BooleanBuffer, BooleanBufferBuilder, Buffer, MutableBuffer, NullBuffer, bit_mask, bit_util};
+use arrow_buffer::{BooleanBuffer, BooleanBufferBuilder, Buffer, MutableBuffer, NullBuffer, NullBufferBuilder, bit_mask, bit_util};
 use vcommon::*;
 
 /// a Buffer whose data pointer has the requested alignment (mod 8)
@@ -235,12 +235,115 @@ fn run_case(line: &str) -> String {
                             "p" => b.append_packed_range(us(f[1])..us(f[2]), &unhex(f[0])),
                             "v" => b.advance(us(f[0])),
                             "l" => b.append_slice(&parse_bits(f[0])),
+                            "w" => b.append_word(f[0].parse::<u64>().unwrap(), us(f[1])),
+                            "b" => b.append_buffer(&bb(&unhex(f[0]), us(f[1]), us(f[2]) - us(f[1]), 0)),
                             _ => panic!("bad builder op"),
                         }
                     }
                 }
                 let out = b.finish();
                 bb_bits(&out)
+            })
+        }
+        "bitslice" => {
+            // slicing entry points: Buffer::bit_slice, BooleanBuffer::slice().sliced(), from_bits, slice().iter()
+            let (var, l, lo, len) = (us(t[2]), unhex(t[3]), us(t[4]), us(t[5]));
+            guarded(move || {
+                let lb = buf_aligned(&l, var % 8);
+                let total = lb.len() * 8;
+                let out = match (var / 8) % 5 {
+                    0 => BooleanBuffer::new(lb.bit_slice(lo, len), 0, len),
+                    1 => {
+                        // slice of a slice: outer (a, total-a) then inner
+                        let a = lo.min((var / 40) % 9);
+                        let outer = BooleanBuffer::new(lb, a, total - a);
+                        BooleanBuffer::new(outer.slice(lo - a, len).sliced(), 0, len)
+                    }
+                    2 => BooleanBuffer::from_bits(lb.as_slice(), lo, len),
+                    3 => BooleanBuffer::new(lb, 0, total).slice(lo, len),
+                    _ => {
+                        let n = NullBuffer::new(BooleanBuffer::new(lb, 0, total)).slice(lo, len);
+                        assert_eq!(n.null_count(), len - n.inner().count_set_bits());
+                        let idx: Vec<usize> = n.valid_indices().collect();
+                        let from_slices: Vec<usize> = n.valid_slices().flat_map(|(a, b)| a..b).collect();
+                        assert_eq!(idx, from_slices);
+                        n.into_inner()
+                    }
+                };
+                assert_eq!(out.len(), len);
+                bb_bits(&out)
+            })
+        }
+        "setnull" => {
+            // MutableBuffer::set_null_bits(start, count) on the whole buffer; C19 setnull <buf> <start> <count>
+            let (b, start, count) = (unhex(t[2]), us(t[3]), us(t[4]));
+            guarded(move || {
+                let mut m = MutableBuffer::from(b);
+                m.set_null_bits(start, count);
+                hex(m.as_slice())
+            })
+        }
+        "setbit" => {
+            // bit_util::set_bit / unset_bit; C19 setbit <buf> <i> <v>
+            let (mut b, i, v) = (unhex(t[2]), us(t[3]), t[4] == "1");
+            guarded(move || {
+                if v { bit_util::set_bit(&mut b, i) } else { bit_util::unset_bit(&mut b, i) }
+                hex(&b)
+            })
+        }
+        "quat" => {
+            // bitwise_quaternary_op_helper with op (a | (c & d)) & (c | (a & b)) ^ d
+            let len = us(t[2]);
+            let parts: Vec<(Vec<u8>, usize)> = t[3].split(';').map(|p| {
+                let f: Vec<&str> = p.split(':').collect();
+                (unhex(f[0]), us(f[1]))
+            }).collect();
+            guarded(move || {
+                let bufs: Vec<Buffer> = parts.iter().map(|(b, o)| buf_aligned(b, o % 8)).collect();
+                let out = arrow_buffer::buffer::bitwise_quaternary_op_helper(
+                    [&bufs[0], &bufs[1], &bufs[2], &bufs[3]],
+                    [parts[0].1, parts[1].1, parts[2].1, parts[3].1],
+                    len,
+                    |a, b, c, d| ((a | (c & d)) & (c | (a & b))) ^ d,
+                );
+                bb_bits(&BooleanBuffer::new(out, 0, len))
+            })
+        }
+        "nth" => {
+            // BitIterator::nth / nth_back; C19 nth <buf> <off> <len> <n> <back>
+            let (l, lo, len, n, back) = (unhex(t[2]), us(t[3]), us(t[4]), us(t[5]), t[6] == "1");
+            guarded(move || {
+                let mut it = BitIterator::new(&l, lo, len);
+                let first = if back { it.nth_back(n) } else { it.nth(n) };
+                let rest: Vec<bool> = it.collect();
+                format!("{} {}", match first { Some(true) => "1", Some(false) => "0", None => "n" }, show_bits(&rest))
+            })
+        }
+        "nbb" => {
+            // NullBufferBuilder op sequence; ops: a<bit> | N<n> (nulls) | V<n> (non nulls) | l<bits> | p<hex>:<off>:<len> (append_buffer) | t<len> | s<i>:<bit>
+            guarded(move || {
+                let mut b = NullBufferBuilder::new(0);
+                if t[2] != "-" {
+                    for op in t[2].split(';') {
+                        let (k, rest) = op.split_at(1);
+                        let f: Vec<&str> = rest.split(':').collect();
+                        match k {
+                            "a" => b.append(f[0] == "1"),
+                            "N" => b.append_n_nulls(us(f[0])),
+                            "V" => b.append_n_non_nulls(us(f[0])),
+                            "l" => b.append_slice(&parse_bits(f[0])),
+                            "p" => b.append_buffer(&NullBuffer::new(bb(&unhex(f[0]), us(f[1]), us(f[2]), 0))),
+                            "t" => b.truncate(us(f[0])),
+                            "s" => b.set_bit(us(f[0]), f[1] == "1"),
+                            _ => panic!("bad nbb op"),
+                        }
+                    }
+                }
+                let n = b.len();
+                match b.finish() {
+                    Some(nb) => { assert_eq!(nb.len(), n); bb_bits(nb.inner()) }
+                    None => show_bits(&vec![true; n]),
+                }
             })
         }
         "assign" => {
@@ -562,9 +665,19 @@ fn gen_case(rng: &mut Rng) -> (String, String) {
                         len += l;
                     }
                     6 => {
-                        let n = rng.usize(70);
-                        ops.push(format!("v{}", n));
-                        len += n;
+                        if rng.bool() {
+                            let n = rng.usize(70);
+                            ops.push(format!("v{}", n));
+                            len += n;
+                        } else if rng.bool() {
+                            let n = *rng.pick(&[0usize, 1, 7, 8, 63, 64]);
+                            ops.push(format!("w{}:{}", rng.next_u64(), n));
+                            len += n;
+                        } else {
+                            let (b, off, l) = gen_range(rng, None);
+                            ops.push(format!("b{}:{}:{}", hex(&b), off, off + l));
+                            len += l;
+                        }
                     }
                     _ => {
                         let n = rng.usize(20);
@@ -579,7 +692,48 @@ fn gen_case(rng: &mut Rng) -> (String, String) {
             let s = if ops.is_empty() { "-".to_string() } else { ops.join(";") };
             (format!("C19 builder {}", s), format!("op:builder {}", if ops.len() > 2 { "nt" } else { "" }))
         }
-        _ => match rng.below(7) {
+        _ => match rng.below(13) {
+            7 => {
+                let (l, lo, len) = gen_range(rng, None);
+                (format!("C19 bitslice {} {} {} {}", rng.usize(360), hex(&l), lo, len), format!("op:bitslice {}", nontrivial(lo, len)))
+            }
+            8 => {
+                let (mut l, _lo, _len) = gen_range(rng, None);
+                if l.is_empty() { l = vec![0xA5]; }
+                let i = rng.usize(l.len() * 8);
+                (format!("C19 setbit {} {} {}", hex(&l), i, rng.below(2)), "op:setbit nt".to_string())
+            }
+            9 => {
+                let len = if rng.chance(1, 5) { 200 + rng.usize(400) } else { rng.usize(140) };
+                let parts: Vec<String> = (0..4).map(|_| {
+                    let (b, o, _) = gen_range(rng, Some(len));
+                    format!("{}:{}", hex(&b), o)
+                }).collect();
+                (format!("C19 quat {} {}", len, parts.join(";")), format!("op:quat {}", if len > 0 { "nt" } else { "" }))
+            }
+            10 => {
+                let (l, lo, len) = gen_range(rng, None);
+                let n = rng.usize(len + 3);
+                (format!("C19 nth {} {} {} {} {}", hex(&l), lo, len, n, rng.below(2)), format!("op:nth {}", nontrivial(lo, len)))
+            }
+            11 | 12 => {
+                let mut ops = vec![];
+                let mut len = 0usize;
+                for _ in 0..rng.usize(10) {
+                    match rng.below(7) {
+                        0 => { ops.push(format!("a{}", rng.below(2))); len += 1; }
+                        1 => { let n = *rng.pick(&[0usize, 1, 7, 8, 9, 63, 64, 65, 130]); ops.push(format!("N{}", n)); len += n; }
+                        2 => { let n = *rng.pick(&[0usize, 1, 7, 8, 9, 63, 64, 65, 130]); ops.push(format!("V{}", n)); len += n; }
+                        3 => { let n = 1 + rng.usize(20); let bits: Vec<bool> = (0..n).map(|_| rng.bool()).collect(); ops.push(format!("l{}", show_bits(&bits))); len += n; }
+                        4 => { let (b, off, l) = gen_range(rng, None); ops.push(format!("p{}:{}:{}", hex(&b), off, l)); len += l; }
+                        5 => { let n = rng.usize(len + 1); ops.push(format!("t{}", n)); len = n; }
+                        _ if len > 0 => ops.push(format!("s{}:{}", rng.usize(len), rng.below(2))),
+                        _ => {}
+                    }
+                }
+                let s = if ops.is_empty() { "-".to_string() } else { ops.join(";") };
+                (format!("C19 nbb {}", s), format!("op:nbb {}", if ops.len() > 2 { "nt" } else { "" }))
+            }
             3 | 4 => {
                 let (l, lo, len) = gen_range(rng, None);
                 let (r, ro, _) = gen_range(rng, Some(len));
